@@ -108,6 +108,7 @@ type Client struct {
 	Net          ClientConnection // network connection state of the client
 	ID           string           // the client id.
 	ops          *ops             // ops provides a reference to server ops.
+	propsMu      sync.RWMutex     // guards Properties.Will and the session expiry interval (never held across a network write)
 	sync.RWMutex                  // mutex
 }
 
